@@ -48,6 +48,27 @@ pub struct Case {
     /// transaction, so observing after every step hides everything that depends on writes still being uncommitted)
     #[serde(default)]
     pub sparse_observe: bool,
+    /// the same kind of history through the client API of a real `Docs` engine (RPC actor in front of the store actor):
+    /// imports hand back document handles that stay open, writes go through `set_bytes` / `del`, restarts re-spawn the
+    /// engine on the same directory. When set, `steps` is ignored.
+    #[serde(default)]
+    pub api: Option<Vec<ApiStep>>,
+}
+
+#[derive(Serialize, Deserialize, Clone, Debug)]
+pub enum ApiStep {
+    /// import a capability for document d (true = the write secret); the returned handle is kept open
+    Import(u8, bool),
+    /// open one more handle
+    Open(u8),
+    /// close the oldest handle held for d
+    Close(u8),
+    Set(u8, u8),
+    Del(u8, u8),
+    /// close every handle held for d and drop the document
+    Drop(u8),
+    /// stop the engine and spawn it again on the same directory (file-backed cases)
+    Restart,
 }
 
 #[derive(Clone, Copy, PartialEq, Eq, Debug)]
@@ -103,13 +124,31 @@ impl Prop for C07 {
             steps.extend(gaps.pop().unwrap_or_default());
             steps
         });
-        (prop::bool::weighted(0.3), any::<bool>(), prop_oneof![3 => plain, 1 => scenario], any::<bool>())
-            .prop_map(|(file, via_actor, steps, sparse_observe)| Case { file, via_actor, steps, sparse_observe })
-            .boxed()
+        let base = (prop::bool::weighted(0.3), any::<bool>(), prop_oneof![3 => plain, 1 => scenario], any::<bool>())
+            .prop_map(|(file, via_actor, steps, sparse_observe)| Case { file, via_actor, steps, sparse_observe, api: None });
+        let astep = prop_oneof![
+            5 => (d(), any::<bool>()).prop_map(|(d, w)| ApiStep::Import(d, w)),
+            2 => d().prop_map(ApiStep::Open),
+            3 => d().prop_map(ApiStep::Close),
+            5 => (d(), 0u8..4).prop_map(|(d, k)| ApiStep::Set(d, k)),
+            2 => (d(), 0u8..4).prop_map(|(d, k)| ApiStep::Del(d, k)),
+            1 => d().prop_map(ApiStep::Drop),
+            1 => Just(ApiStep::Restart),
+        ];
+        let api = (prop::bool::weighted(0.3), vec(astep, 1..=14)).prop_map(|(file, steps)| Case { file, via_actor: false, steps: vec![], sparse_observe: false, api: Some(steps) });
+        prop_oneof![60 => base, 1 => api].boxed()
     }
 
     fn check(ctx: &mut Ctx, c: &Case) -> Outcome {
         let mut o = Outcome::default();
+        if let Some(steps) = &c.api {
+            let r = check_api(ctx, c.file, steps, &mut o);
+            verif::set_clock(None);
+            if let Err(e) = r {
+                o.fail(if e.starts_with("harness-timeout") { "C07/harness-timeout" } else { "C07/harness-error" }, e);
+            }
+            return o;
+        }
         o.class(if c.via_actor { "via-actor" } else { "via-store" });
         if c.sparse_observe {
             o.class("observed-only-after-reopen-and-at-the-end");
@@ -535,5 +574,180 @@ fn check_actor(ctx: &mut Ctx, c: &Case, o: &mut Outcome) -> R<()> {
         let _ = std::fs::remove_file(p);
     }
     let _: Option<SignedEntry> = None;
+    res
+}
+
+// ------------------------------------------------------------------------------------------------
+// the client API of a real engine
+
+struct ApiFixture {
+    endpoint: iroh::Endpoint,
+    gossip: iroh_gossip::net::Gossip,
+    blobs: iroh_blobs::api::Store,
+}
+
+async fn within<T>(what: &str, f: impl std::future::Future<Output = T>) -> R<T> {
+    tokio::time::timeout(std::time::Duration::from_secs(30), f).await.map_err(|_| format!("harness-timeout: {what} did not return within 30 s"))
+}
+
+fn check_api(ctx: &mut Ctx, file: bool, steps: &[ApiStep], o: &mut Outcome) -> R<()> {
+    use futures_util::StreamExt;
+    use iroh_docs::{api::Doc, protocol::Docs, Capability, CapabilityKind};
+    o.class(if file { "client-api/file" } else { "client-api/memory" });
+    if !ctx.fixtures.contains_key("c07api") {
+        let f: R<ApiFixture> = ctx.rt.block_on(async {
+            use iroh::{endpoint::presets, Endpoint};
+            let endpoint = es(Endpoint::builder(presets::Minimal).bind().await)?;
+            let gossip = iroh_gossip::net::Gossip::builder().spawn(endpoint.clone());
+            let blobs = iroh_blobs::store::mem::MemStore::new();
+            Ok(ApiFixture { endpoint, gossip, blobs: (*blobs).clone() })
+        });
+        ctx.fixtures.insert("c07api", Box::new(f?));
+    }
+    let dir = if file { Some(ctx.fresh_path("c07api-dir")) } else { None };
+    let fx = ctx.fixtures.get("c07api").and_then(|f| f.downcast_ref::<ApiFixture>()).ok_or("fixture")?;
+    let (endpoint, gossip, blobs) = (fx.endpoint.clone(), fx.gossip.clone(), fx.blobs.clone());
+    let mut t = T0 + 5000;
+    let res: R<()> = ctx.rt.block_on(async {
+        let spawn = || async {
+            let b = match &dir {
+                Some(d) => {
+                    es(std::fs::create_dir_all(d))?;
+                    Docs::persistent(d.clone())
+                }
+                None => Docs::memory(),
+            };
+            within("spawning the engine", b.spawn(endpoint.clone(), blobs.clone(), gossip.clone())).await?.map_err(|e| format!("spawn: {e:?}"))
+        };
+        let mut docs = spawn().await?;
+        let author = es(within("author_create", docs.author_create()).await?)?;
+        let mut cap = [Cap::Absent; 3];
+        let mut handles: Vec<Vec<Doc>> = vec![vec![], vec![], vec![]];
+        let mut progress = vec![Progress::default(); 3];
+        let mut upgraded_while_open = false;
+        for (i, s) in steps.iter().enumerate() {
+            t += 1;
+            verif::set_clock(Some(t));
+            let what = format!("step {i} {:?}", s);
+            match s {
+                ApiStep::Import(d, write) => {
+                    let du = *d as usize;
+                    let c = if *write { Capability::Write(namespace(*d).clone()) } else { Capability::Read(namespace(*d).id()) };
+                    let doc = within("import_namespace", docs.import_namespace(c)).await?.map_err(|e| format!("{what}: import failed: {e:?}"))?;
+                    if *write && cap[du] == Cap::Read && !handles[du].is_empty() {
+                        upgraded_while_open = true;
+                        o.class("client-api/write-secret-imported-while-the-read-only-document-is-open");
+                    }
+                    handles[du].push(doc);
+                    cap[du] = match (cap[du], *write) {
+                        (_, true) | (Cap::Write, _) => Cap::Write,
+                        _ => Cap::Read,
+                    };
+                    progress[du].on(if *write { 1 } else { 0 });
+                }
+                ApiStep::Open(d) => {
+                    let du = *d as usize;
+                    let r = within("open", docs.open(namespace(*d).id())).await?;
+                    match (cap[du] != Cap::Absent, r) {
+                        (true, Ok(Some(doc))) => handles[du].push(doc),
+                        (false, Err(_)) | (false, Ok(None)) => {}
+                        (exists, r) => {
+                            o.fail("C07/open", format!("{what}: the document {} but open returned {:?}", if exists { "exists" } else { "does not exist" }, r.map(|d| d.is_some()).map_err(|e| e.to_string())));
+                            break;
+                        }
+                    }
+                }
+                ApiStep::Close(d) => {
+                    let du = *d as usize;
+                    if !handles[du].is_empty() {
+                        let h = handles[du].remove(0);
+                        es(within("close", h.close()).await?)?;
+                    }
+                }
+                ApiStep::Set(d, k) | ApiStep::Del(d, k) => {
+                    let du = *d as usize;
+                    if cap[du] == Cap::Absent {
+                        continue;
+                    }
+                    if handles[du].is_empty() {
+                        match es(within("open", docs.open(namespace(*d).id())).await?)? {
+                            Some(doc) => handles[du].push(doc),
+                            None => return Err(format!("{what}: an existing document could not be opened")),
+                        }
+                    }
+                    let h = handles[du].last().unwrap();
+                    let key = vec![b'k', *k];
+                    let ok = if matches!(s, ApiStep::Set(..)) {
+                        within("set_bytes", h.set_bytes(author, key.clone(), format!("v{i}"))).await?.is_ok()
+                    } else {
+                        within("del", h.del(author, key.clone())).await?.is_ok()
+                    };
+                    progress[du].on(2);
+                    if ok != (cap[du] == Cap::Write) {
+                        o.fail(
+                            "C07/write-vs-capability",
+                            format!("{what} (client API, {} handles open): the write {} although the document's capability is {:?}", handles[du].len(), if ok { "succeeded" } else { "was refused" }, cap[du]),
+                        );
+                        break;
+                    }
+                }
+                ApiStep::Drop(d) => {
+                    let du = *d as usize;
+                    for h in handles[du].drain(..) {
+                        let _ = within("close", h.close()).await?;
+                    }
+                    let r = within("drop_doc", docs.drop_doc(namespace(*d).id())).await?;
+                    if cap[du] != Cap::Absent && r.is_err() {
+                        o.fail("C07/drop", format!("{what}: dropping a closed document failed: {:?}", r.err().map(|e| e.to_string())));
+                        break;
+                    }
+                    cap[du] = Cap::Absent;
+                    progress[du] = Progress::default();
+                }
+                ApiStep::Restart => {
+                    if dir.is_none() {
+                        continue;
+                    }
+                    for hs in handles.iter_mut() {
+                        hs.clear();
+                    }
+                    within("shutdown", iroh::protocol::ProtocolHandler::shutdown(&docs)).await?;
+                    docs = spawn().await?;
+                    o.class("client-api/engine-restarted-from-disk");
+                }
+            }
+            // the listed kinds are the model's, for every document, after every step
+            let mut listed = std::collections::BTreeMap::new();
+            let mut stream = es(within("list", docs.list()).await?)?;
+            while let Some(x) = within("list item", stream.next()).await? {
+                let (id, kind) = es(x)?;
+                listed.insert(id, kind);
+            }
+            for d in 0..3u8 {
+                let got = listed.get(&namespace(d).id()).map(|k| match k {
+                    CapabilityKind::Write => Cap::Write,
+                    CapabilityKind::Read => Cap::Read,
+                });
+                if got.unwrap_or(Cap::Absent) != cap[d as usize] {
+                    o.fail("C07/listed-kind", format!("{what} (client API): document {d} is listed as {:?}, the model says {:?}", got, cap[d as usize]));
+                    break;
+                }
+            }
+            if o.failed() {
+                break;
+            }
+        }
+        if progress.iter().any(|p| p.done()) || upgraded_while_open {
+            o.nontrivial = true;
+        }
+        for hs in handles.iter_mut() {
+            hs.clear();
+        }
+        within("shutdown", iroh::protocol::ProtocolHandler::shutdown(&docs)).await?;
+        Ok(())
+    });
+    if let Some(d) = dir {
+        let _ = std::fs::remove_dir_all(d);
+    }
     res
 }
